@@ -1,0 +1,39 @@
+//go:build verif
+
+// Contracts for package sstable, read by /verif/kvc (contract-based deductive verification).
+// Comment-only; excluded from every build without the `verif` tag.
+package sstable
+
+// ---- abstract view of one table file (what was written into it): has[k], del[k] (deletion marker), val[k].
+//@ ghost field (*Reader) has set[bstr]
+//@ ghost field (*Reader) del set[bstr]
+//@ ghost field (*Reader) val map[bstr]bstr
+// cursor of a table iterator in terms of the view: atValid, atKey
+//@ ghost field (*Iterator) atValid bool
+//@ ghost field (*Iterator) atKey bstr
+
+// View-level contracts of the table iterator as used by point lookups (storage.Manager.Get/IsDeleted).
+// They are ASSUMED here (trusted) and are the proof goal of C11 (index seek + block seek + decode).
+//@ func (*Reader).NewIterator
+//@   trusted assumed view-level contract (goal of C11)
+//@   modifies nothing
+//@   ensures result != nil && fresh(result) && result.reader == r
+//@ func (*Iterator).Seek
+//@   trusted assumed view-level contract (goal of C11)
+//@   modifies it.atValid, it.atKey, it.indexIterator, it.dataBlockIter, it.currentBlock, it.err, it.initialized
+//@   ensures result == it.atValid
+//@   ensures it.reader.has[bstr(target)] ==> it.atValid && it.atKey == bstr(target)
+//@   ensures it.atValid ==> it.reader.has[it.atKey] && !blt(it.atKey, bstr(target))
+//@ func (*Iterator).Key
+//@   trusted assumed view-level contract (goal of C11)
+//@   modifies nothing
+//@   ensures it.atValid ==> result != nil && bstr(result) == it.atKey
+//@   ensures !it.atValid ==> result == nil
+//@ func (*Iterator).IsTombstone
+//@   trusted assumed view-level contract (goal of C11)
+//@   modifies nothing
+//@   ensures result == (it.atValid && it.reader.del[it.atKey])
+//@ func (*Iterator).Value
+//@   trusted assumed view-level contract (goal of C11)
+//@   modifies nothing
+//@   ensures it.atValid && !it.reader.del[it.atKey] ==> bstr(result) == it.reader.val[it.atKey]
